@@ -77,7 +77,7 @@ func (fr *frame) external(st *state, f *ssa.Function, c *ssa.CallCommon, pos tok
 		return fr.specCall(st, ct, "ext:"+name, fr.anchorText(pos, "call"), pos, vars, eff, sig)
 	}
 	fc.unmodelled[name] = true
-	fc.havocKeys(st, fc.e.externalEffects(f, c))
+	fc.havocFramed(st, st.clone(), fc.e.externalEffects(f, c))
 	fr.bumpAlloc(st)
 	return fr.freshResults(st, c.Signature(), f.Name())
 }
@@ -317,7 +317,8 @@ func extBufString(fr *frame, st *state, c *ssa.CallCommon, args []string, pos to
 func extBufBytes(fr *frame, st *state, c *ssa.CallCommon, args []string, pos token.Pos) []string {
 	fc := fr.fc
 	r := fr.freshRef(st, "bytes")
-	fc.hset(st, "A|Int", app("store", fc.hget(st, "A|Int"), r, app("select", fc.hget(st, "BD"), args[0])))
+	bk := fc.e.u.arrKey(types.Typ[types.Byte])
+	fc.hset(st, bk, app("store", fc.hget(st, bk), r, app("select", fc.hget(st, "BD"), args[0])))
 	ln := app("select", fc.hget(st, "BL"), args[0])
 	fc.sc.assume(fmt.Sprintf("(>= %s 0)", ln))
 	return []string{fc.sc.define("bufbytes", "Slice", fmt.Sprintf("(mkslice %s 0 %s)", r, ln))}
@@ -381,7 +382,7 @@ func extFprintf(fr *frame, st *state, c *ssa.CallCommon, args []string, pos toke
 	}
 	// argument j: element of the variadic []interface{} slice
 	argv := func(j int) string {
-		return fmt.Sprintf("(vpay (select (select %s (sref %s)) (+ (soff %s) %d)))", fc.hget(st, "A|Val"), args[2], args[2], j)
+		return fmt.Sprintf("(vpay (select (select %s (sref %s)) (+ (soff %s) %d)))", fc.hget(st, fc.e.u.arrKey(types.NewInterfaceType(nil, nil))), args[2], args[2], j)
 	}
 	argi := 0
 	total := "0"
